@@ -1,0 +1,110 @@
+//go:build verif
+
+// Contracts for the gRPC service handlers, read by /verif/kvc (contract-based deductive verification).
+// Handlers are verified against the call-history contracts of interfaces.Engine, interfaces.Transaction,
+// transaction.Transaction and transaction.Registry.  Comment-only; excluded without the `verif` tag.
+package service
+
+//@ predicate Limits(s *KevoServiceServer) = s.maxKeySize == 4096 && s.maxValueSize == 10485760 && s.maxBatchSize == 1000 && s.engine != nil && s.txRegistry != nil
+//@ predicate BadKey(k []byte) = len(k) == 0 || len(k) > 4096
+
+//@ func NewKevoServiceServer
+//@   requires engine != nil && txRegistry != nil
+//@   ensures[C19] Limits(result)
+
+// ---- limits first, then exact delegation
+//@ func (*KevoServiceServer).Put
+//@   requires Limits(s) && req != nil
+//@   ensures[C19] BadKey(req.Key) || len(req.Value) > 10485760 ==> err != nil && s.engine.puts == old(s.engine.puts)
+//@   ensures[C19] !(BadKey(req.Key) || len(req.Value) > 10485760) ==> s.engine.puts == old(s.engine.puts) + 1 && s.engine.lastKey == bstr(req.Key) && s.engine.lastVal == bstr(req.Value)
+//@   ensures[C19] s.engine.dels == old(s.engine.dels) && s.engine.begins == old(s.engine.begins)
+//@   ensures[C19] err == nil ==> result0 != nil && result0.Success
+//@ func (*KevoServiceServer).Delete
+//@   requires Limits(s) && req != nil
+//@   ensures[C19] BadKey(req.Key) ==> err != nil && s.engine.dels == old(s.engine.dels)
+//@   ensures[C19] !BadKey(req.Key) ==> s.engine.dels == old(s.engine.dels) + 1 && s.engine.lastKey == bstr(req.Key)
+//@   ensures[C19] s.engine.puts == old(s.engine.puts) && s.engine.begins == old(s.engine.begins)
+//@   ensures[C19] err == nil ==> result0 != nil && result0.Success
+//@ func (*KevoServiceServer).Get
+//@   requires Limits(s) && req != nil
+//@   ensures[C19] BadKey(req.Key) ==> err != nil && s.engine.gets == old(s.engine.gets)
+//@   ensures[C19] !BadKey(req.Key) ==> err == nil && s.engine.gets == old(s.engine.gets) + 1 && s.engine.lastKey == bstr(req.Key)
+//@   ensures[C19] s.engine.puts == old(s.engine.puts) && s.engine.dels == old(s.engine.dels) && s.engine.begins == old(s.engine.begins)
+
+// ---- transactions addressed by handle
+//@ func (*KevoServiceServer).CommitTransaction
+//@   requires Limits(s) && req != nil && !s.txRegistry.okToRemove
+//@   ensures[C19,C17] s.txRegistry.removes <= old(s.txRegistry.removes) + 1
+//@   ensures[C19] err == nil ==> s.txRegistry.removes == old(s.txRegistry.removes) + 1
+//@   ghost after call Transaction.Commit#1: s.txRegistry.okToRemove = tx.finished
+//@ func (*KevoServiceServer).RollbackTransaction
+//@   requires Limits(s) && req != nil && !s.txRegistry.okToRemove
+//@   ensures[C19,C17] s.txRegistry.removes <= old(s.txRegistry.removes) + 1
+//@   ensures[C19] err == nil ==> s.txRegistry.removes == old(s.txRegistry.removes) + 1
+//@   ghost after call Transaction.Rollback#1: s.txRegistry.okToRemove = tx.finished
+//@ func (*KevoServiceServer).TxGet
+//@   requires Limits(s) && req != nil && !s.txRegistry.okToRemove
+//@   ensures[C19,C17] s.txRegistry.removes <= old(s.txRegistry.removes) + 1
+//@   ensures[C19,C17] !BadKey(req.Key) ==> s.txRegistry.removes == old(s.txRegistry.removes)
+//@   ghost after call Transaction.Rollback#1: s.txRegistry.okToRemove = tx.finished
+//@ func (*KevoServiceServer).TxPut
+//@   requires Limits(s) && req != nil && !s.txRegistry.okToRemove
+//@   ensures[C19,C17] s.txRegistry.removes == old(s.txRegistry.removes)
+//@ func (*KevoServiceServer).TxDelete
+//@   requires Limits(s) && req != nil && !s.txRegistry.okToRemove
+//@   ensures[C19,C17] s.txRegistry.removes == old(s.txRegistry.removes)
+
+// ---- scans: the messages sent are exactly the non-deleted entries the cursor passed, one per entry, in
+// cursor order, at most `limit` of them; the read-only transaction of Scan is rolled back on every exit.
+// emitted[i] <=> a message was sent while the cursor was on entry i.
+//@ ghost field (*KevoServiceServer) emitted set[int]
+//@ ghost field (*KevoServiceServer) scanTx interfaces.Transaction
+//@ func (*KevoServiceServer).Scan
+//@   requires Limits(s) && req != nil && stream != nil && (forall i int :: !s.emitted[i])
+//@   ensures[C19,C05] s.engine.begins == old(s.engine.begins) + 1 && s.engine.lastBeginRO
+//@   ensures[C19] s.engine.puts == old(s.engine.puts) && s.engine.dels == old(s.engine.dels)
+//@   ensures[C19,C17] s.scanTx != nil ==> s.scanTx.rollbacks == 1 && s.scanTx.commits == 0 && s.scanTx.puts == 0 && s.scanTx.dels == 0
+//@   ensures[C19,C05] req.Limit > 0 ==> stream.sent - old(stream.sent) <= req.Limit
+//@   ghost after call Engine.BeginTransaction#1: s.scanTx = result0
+//@   ghost after call ServerStreamingServer.Send#1: s.emitted = upd(s.emitted, iter.pos, true)
+//@   check[C05,C19] before call ServerStreamingServer.Send#1: IterValid(iter) && !iter.tomb[iter.pos]
+//@ loop (*KevoServiceServer).Scan#1
+//@   invariant[C05,C19] iter != nil && 0 <= iter.pos && (limit > 0 ==> 0 <= count && count <= limit && stream.sent - old(stream.sent) == count)
+//@   invariant[C05,C19] forall i int :: 0 <= i && i < iter.pos && i < iter.n ==> (s.emitted[i] <==> !iter.tomb[i])
+//@   invariant[C05,C19] forall i int :: i >= iter.pos ==> !s.emitted[i]
+//@   invariant[C19] s.scanTx == tx && tx != nil && tx.rollbacks == 0 && tx.commits == 0 && tx.puts == 0 && tx.dels == 0
+//@   invariant[C19] s.engine.begins == old(s.engine.begins) + 1 && s.engine.lastBeginRO && s.engine.puts == old(s.engine.puts) && s.engine.dels == old(s.engine.dels)
+//@   invariant[C19] (req.Limit > 0 ==> limit == req.Limit) && (req.Limit <= 0 ==> limit == 0)
+//@ func (*KevoServiceServer).TxScan
+//@   requires Limits(s) && req != nil && stream != nil && (forall i int :: !s.emitted[i])
+//@   ensures[C19] s.engine.begins == old(s.engine.begins) && s.engine.puts == old(s.engine.puts) && s.engine.dels == old(s.engine.dels)
+//@   ensures[C19,C17] s.txRegistry.removes == old(s.txRegistry.removes)
+//@   ensures[C19,C05] req.Limit > 0 ==> stream.sent - old(stream.sent) <= req.Limit
+//@   ghost after call ServerStreamingServer.Send#1: s.emitted = upd(s.emitted, iter.pos, true)
+//@   check[C05,C19] before call ServerStreamingServer.Send#1: IterValid(iter) && !iter.tomb[iter.pos]
+//@ loop (*KevoServiceServer).TxScan#1
+//@   invariant[C05,C19] iter != nil && 0 <= iter.pos && (limit > 0 ==> 0 <= count && count <= limit && stream.sent - old(stream.sent) == count)
+//@   invariant[C05,C19] forall i int :: 0 <= i && i < iter.pos && i < iter.n ==> (s.emitted[i] <==> !iter.tomb[i])
+//@   invariant[C05,C19] forall i int :: i >= iter.pos ==> !s.emitted[i]
+//@   invariant[C19] s.engine.begins == old(s.engine.begins) && s.engine.puts == old(s.engine.puts) && s.engine.dels == old(s.engine.dels) && s.txRegistry.removes == old(s.txRegistry.removes)
+//@   invariant[C19] (req.Limit > 0 ==> limit == req.Limit) && (req.Limit <= 0 ==> limit == 0)
+
+// ---- batch write: limits first; one read-write transaction; operations buffered in request order; commit
+// only after every operation was validated and buffered; rollback on every error exit.
+//@ ghost field (*KevoServiceServer) batchTx interfaces.Transaction
+//@ func (*KevoServiceServer).BatchWrite
+//@   requires Limits(s) && req != nil
+//@   ensures[C19,C03] len(req.Operations) == 0 || len(req.Operations) > 1000 ==> s.engine.begins == old(s.engine.begins)
+//@   ensures[C19] len(req.Operations) > 1000 ==> err != nil
+//@   ensures[C19,C03] s.engine.begins <= old(s.engine.begins) + 1 && s.engine.puts == old(s.engine.puts) && s.engine.dels == old(s.engine.dels)
+//@   ensures[C19,C03] s.engine.begins == old(s.engine.begins) + 1 ==> !s.engine.lastBeginRO
+//@   ensures[C19,C03] s.batchTx != nil ==> s.batchTx.commits <= 1 && (s.batchTx.commits == 1 ==> s.batchTx.puts + s.batchTx.dels == len(req.Operations))
+//@   ensures[C19,C03,C17] s.batchTx != nil && err != nil ==> s.batchTx.rollbacks == 1
+//@   ensures[C19,C03,C17] s.batchTx != nil && err == nil ==> s.batchTx.commits == 1 && s.batchTx.rollbacks == 0
+//@   ghost entry: s.batchTx = nil
+//@   ghost after call Engine.BeginTransaction#1: s.batchTx = result0
+//@   check[C19] before call Transaction.Commit#1: forall j int :: 0 <= j && j < len(req.Operations) ==> !BadKey(req.Operations[j].Key)
+//@ loop (*KevoServiceServer).BatchWrite#1
+//@   invariant[C19,C03] s.batchTx == tx && tx != nil && tx.commits == 0 && tx.rollbacks == 0 && tx.puts + tx.dels == idx && err == nil
+//@   invariant[C19,C03] s.engine.begins == old(s.engine.begins) + 1 && !s.engine.lastBeginRO && s.engine.puts == old(s.engine.puts) && s.engine.dels == old(s.engine.dels)
+//@   invariant[C19] forall j int :: 0 <= j && j < idx ==> !BadKey(req.Operations[j].Key)
